@@ -8,8 +8,22 @@ ALLOWED_AXIOMS = {"propext", "Classical.choice", "Quot.sound"}
 
 # (module, fully qualified theorem) per property: the proof obligations of the property.
 GENTIE = "Eav.Props.GenTie"
+TIE_MODULE = {}
+for _mod, _names in {
+    "Enums": ["errEnum_eq", "tldTypeEnum_eq", "tldBitEnum_eq", "rfcEnum_eq", "limits_eq"],
+    "Errors": ["errors_tags", "errors_runtime", "errors_nonempty", "errors_distinct"],
+    "Special": ["reserved_eq", "example_eq", "exampleLabel_eq", "lenFilter_eq"],
+    "Scanners": ["specials_eq"],
+    "Build": ["buildOpts_eq"],
+    "Init": ["init_sets_all", "init_fields", "init_values", "setup_eq"],
+    "Globals": ["no_mutable_globals", "externals_mt_safe"],
+}.items():
+    for _n in _names:
+        TIE_MODULE[_n] = "Eav.Props.Tie." + _mod
+
+
 def _gt(*names):
-    return [(GENTIE, GENTIE + "." + n) for n in names]
+    return [(TIE_MODULE[n], GENTIE + "." + n) for n in names]
 
 THEOREMS = {
     "C01": _gt("errEnum_eq", "rfcEnum_eq", "setup_eq", "limits_eq"),
@@ -657,9 +671,12 @@ RULES["C12"] = "distinct addresses passing basic_email_check; the C01 corpus res
 def diag_corpus(ctx):
     strs = [s for s in dict.fromkeys(gen.email_strings(ctx.tier, ctx.rng)) if 0 not in s]
     extra = []
-    for l in gen.local_strings("quick", ctx.rng)[:: (25 if ctx.tier == "quick" else 3)]:
+    for l in gen.local_strings("quick", ctx.rng, utf8=True)[:: (25 if ctx.tier == "quick" else 3)]:
         if b"@" not in l and 0 not in l:
             extra.append(l + b"@b.com")
+    for x in ("é", "Ж", "№", "中", "😀"):
+        for fmt in ("a.%s.b", "%s.%s", "a.%s", "%s.b", "a..%s", "%s..b", '"%s"', '"\\%s"', '%s"q"', '"q"%s', "a%s.b%s"):
+            extra.append((fmt.replace("%s", x)).encode() + b"@b.com")
     for d in gen.domain_strings("quick", ctx.rng)[:: (60 if ctx.tier == "quick" else 5)]:
         if b"@" not in d and 0 not in d:
             extra.append(b"a@" + d)
